@@ -198,6 +198,72 @@ fn core_body_x(prelinked: bool, third: Third, p_exits: bool) -> vsched::Body {
     })
 }
 
+/// A link into an actor that sits in the subtree of an exiting ancestor: R exits (its walk closes the child set of
+/// its descendant D and signals it; D has not reacted yet, its status is still Running), and `X.link(D)` runs
+/// before, during or after that, X being a child of the bystander K. If the link is refused, nothing has moved: X
+/// is still K's child and K still lists it. If it is accepted, X goes down with R's subtree.
+fn refused_link_body(sequential: bool) -> vsched::Body {
+    Arc::new(move || {
+        Box::pin(async move {
+            let mk = || {
+                let (c, p) = inspect::detached::<Dummy>(None).expect("cell");
+                inspect::set_status(&c, ActorStatus::Running);
+                (c, p)
+            };
+            let (r, rp) = mk();
+            let (d, dp) = mk();
+            let (k, kp) = mk();
+            let (x, mut xp) = mk();
+            assert!(inspect::try_link(&d, &r));
+            assert!(inspect::try_link(&x, &k));
+            let cells = vec![("R".to_string(), r.clone()), ("D".to_string(), d.clone()), ("K".to_string(), k.clone()), ("X".to_string(), x.clone())];
+            let r2 = r.clone();
+            let exiter = vsched::spawn("tree", async move {
+                inspect::run_exit_path(&r2, None);
+                vsched::ret_stamp()
+            });
+            let mut exiter = Some(exiter);
+            if sequential {
+                let _ = exiter.take().unwrap().await;
+            }
+            let (x1, d1) = (x.clone(), d.clone());
+            let linker = vsched::spawn("tree", async move {
+                let call = vsched::call_stamp();
+                let ok = inspect::try_link(&x1, &d1);
+                (call, ok)
+            });
+            vsched::quiesce();
+            let (_lcall, linked) = linker.await.expect("linker");
+            if let Some(e) = exiter {
+                let _ = e.await;
+            }
+            let mut bad = tree_invariants(&cells);
+            let xs = inspect::tree_snapshot(&x);
+            let ks = inspect::tree_snapshot(&k);
+            let x_killed = matches!(xp.try_recv_signal(), Some(Signal::Kill));
+            if !linked {
+                if xs.supervisor != Some(k.get_id()) {
+                    bad.push(format!("X.link(D) was refused (D's child set was closed by its exiting ancestor) but X's supervisor is now {:?} instead of K", xs.supervisor.map(|s| s.to_string())));
+                }
+                if !ks.children.as_ref().is_some_and(|c| c.contains(&x.get_id())) {
+                    bad.push("X.link(D) was refused but K no longer lists X as its child".to_string());
+                }
+                if x_killed {
+                    bad.push("X.link(D) was refused but X was killed with R's subtree".to_string());
+                }
+            } else if !x_killed {
+                bad.push(format!("X.link(D) was accepted, D is in the subtree of R which exited, but X was not signalled; X's links {xs:?}"));
+            }
+            let key = format!("linked={linked} x_killed={x_killed} xsup={:?}", xs.supervisor.map(|s| s.to_string()));
+            for (_, c) in &cells {
+                inspect::set_status(c, ActorStatus::Stopped);
+            }
+            drop((rp, dp, kp, xp));
+            Outcome { key, violations: bad }
+        })
+    })
+}
+
 // ---------------------------------------------------------------------------------------------
 // live (task granularity): real trees, invariants at every scheduling step
 // ---------------------------------------------------------------------------------------------
@@ -786,6 +852,9 @@ pub fn plan(tier: &str) -> Plan {
         let bound = bound.map(|b: usize| if thorough { b + 1 } else { b });
         units.push(Unit::explore_split(Job::new(format!("core/pre={pre}/{third:?}"), core_cfg.clone(), bound, core_body(pre, third)), 8));
     }
+    // a link into a descendant of an exiting actor (its child set is closed before it has reacted to its own kill)
+    units.push(Unit::explore_split(Job::new("core/link-into-descendant-of-exiting/after", core_cfg.clone(), None, refused_link_body(true)), 2));
+    units.push(Unit::explore_split(Job::new("core/link-into-descendant-of-exiting/racing", core_cfg.clone(), None, refused_link_body(false)), 8));
     // the supervisor stays alive; only the child exits while it is being linked / relinked
     units.push(Unit::explore_split(Job::new("core/p-alive/link-vs-child-exit", core_cfg.clone(), None, core_body_x(false, Third::ExitChild, false)), 8));
     units.push(Unit::explore_split(Job::new("core/p-alive/prelinked-relink-vs-child-exit", core_cfg.clone(), None, core_body_x(true, Third::ExitChild, false)), 8));
